@@ -195,8 +195,11 @@ func realNodes(avail []Vec) []ctypes.Node {
 const ownerAddr = "akash1verifc12ownerxxxxxxxxxxxxxxxxxxxxxxxxxxx"
 const providerAddr = "akash1verifc12providerxxxxxxxxxxxxxxxxxxxxxxxx"
 
+// orderID: order i < 100 is <owner>/100+i/1/1; order 100*k+i is the order of the SAME deployment group with order
+// sequence number 1+k (on chain: closing a lease creates order <group>/(n+1) while the reservation made for
+// <group>/n is still held until teardown). The reference model is keyed by the full id (the integer).
 func orderID(i int) mtypes.OrderID {
-	return mtypes.OrderID{Owner: ownerAddr, DSeq: uint64(100 + i), GSeq: 1, OSeq: 1}
+	return mtypes.OrderID{Owner: ownerAddr, DSeq: uint64(100 + i%100), GSeq: 1, OSeq: uint32(1 + i/100)}
 }
 
 func leaseID(i int) mtypes.LeaseID {
